@@ -1113,8 +1113,10 @@ func c44OpenSituation(o c44Op, clean string, pre byte, nativeErr error) string {
 	switch {
 	case (o.Append || o.Sync) && nativeErr == nil && clean != "/":
 		return "c44-open-append-sync"
-	case pre == 'd' && nativeErr != nil &&
-		((clean != "/" && !(o.Create && o.Excl) && (o.Create || o.Acc%3 != 0)) || (clean == "/" && o.Create && o.Acc%3 == 0)):
+	case pre == 'd' && nativeErr != nil && o.Create &&
+		((clean != "/" && !o.Excl) || (clean == "/" && o.Acc%3 == 0)):
+		return "c44-open-dir-with-create"
+	case pre == 'd' && nativeErr != nil && clean != "/" && !o.Create && o.Acc%3 != 0:
 		return "c44-open-dir-for-writing"
 	}
 	return ""
